@@ -407,6 +407,16 @@ def monitor(sc, views, acting=None, users=None):
                             law = "delete-only-requested" if eff_hard else "soft-keeps-rows"
                             res.append((law, k, "%s delete of %s by user %s (mode %r): message row %d changed %s -> %s"
                                         % ("hard" if eff_hard else "soft", sorted(ids), actor, mode, q, m, m2)))
+                    if not eff_hard:
+                        # "for the requester only when soft": a deletion that is (or has degraded to) soft tells no
+                        # other user anything and moves no other user's deletion mark (c04_soft_private)
+                        told = sorted(set(s_ for s_, t in v.frames if t.startswith("pres what=del") and s_ != 0
+                                          and sc.sessions.get(s_) is not None and sc.sessions.get(s_) != actor))
+                        moved = sorted(u for u, cu in v.cusers.items()
+                                       if u != actor and prev.loaded and u in prev.cusers and cu["delid"] != prev.cusers[u]["delid"])
+                        if told or moved:
+                            res.append(("soft-delete-private", k, "soft delete of %s by user %s (mode %r, hard asked=%s): {pres del} sent to the sessions %s of other "
+                                        "users, cached deletion mark of the other users %s moved" % (sorted(ids), actor, mode, hard_asked, told, moved)))
                     # the specification transition
                     if eff_hard:
                         sp.hard |= ids
